@@ -11,6 +11,7 @@ kernel-checked witness.
 import MetricsVerif.Proofs.Recency
 import MetricsVerif.Proofs.GenRace
 import MetricsVerif.Generated.SourceFacts
+import MetricsVerif.Proofs.SrcShapes
 
 namespace MetricsVerif.C12
 open MetricsVerif.Recency
@@ -611,5 +612,15 @@ theorem src_generation_order :
     Generated.gen_with_increment_steps = ["apply", "bump:fetch_add"]
     ∧ Generated.prom_counter_read_order = ["generation", "value:load"]
     ∧ Generated.prom_gauge_read_order = ["generation", "value:load"] := by decide
+
+
+open MetricsVerif.Src in
+/-- SOURCE FACT: the generation bump is a Release RMW and the exporter's generation read an Acquire load, so an
+    observer that sees the bumped generation also sees the value update that preceded the bump -/
+theorem src_generation_orderings :
+    names Generated.shape_generational_with_increment = ["gen.fetch_add"]
+    ∧ allRelease Generated.shape_generational_with_increment "gen.fetch_add" = true
+    ∧ names Generated.shape_generational_get_generation = ["gen.load"]
+    ∧ allAcquire Generated.shape_generational_get_generation "gen.load" = true := by decide
 
 end MetricsVerif.C12
